@@ -8,6 +8,7 @@ import (
 	"fmt"
 	"io"
 	"net"
+	"strconv"
 	"strings"
 	"sync"
 	"syscall"
@@ -140,21 +141,45 @@ type nextBackendFunc func() (backendAddr string, log logr.Logger, ok bool)
 // substituteBackendParams replaces $1, $2, etc. in the backend address template with captured groups.
 // If a parameter index is out of range or missing, it leaves the parameter as-is (e.g., "$99" stays "$99").
 func substituteBackendParams(template string, groups []string) string {
-	if len(groups) == 0 {
+	if len(groups) == 0 || !strings.Contains(template, "$") {
 		return template
 	}
 
-	result := template
-	// Replace $1, $2, etc. with captured groups
-	// We need to handle this carefully to avoid replacing $10 when we mean $1
-	// Process from highest index to lowest to avoid partial replacements
-	for i := len(groups); i >= 1; i-- {
-		param := fmt.Sprintf("$%d", i)
-		if i-1 < len(groups) {
-			result = strings.ReplaceAll(result, param, groups[i-1])
+	// Single left-to-right pass: all parameters are replaced simultaneously, so text
+	// inserted from a captured group (which the client controls) is never scanned for
+	// parameters again. A parameter is '$' followed by the longest run of digits (without a
+	// leading zero) that is a valid group index, so "$10" means group 10 when there are
+	// ten groups and group 1 followed by "0" otherwise.
+	var b strings.Builder
+	b.Grow(len(template))
+	for i := 0; i < len(template); {
+		if template[i] != '$' {
+			b.WriteByte(template[i])
+			i++
+			continue
+		}
+		end := i + 1
+		for end < len(template) && template[end] >= '0' && template[end] <= '9' {
+			end++
+		}
+		replaced := false
+		if end > i+1 && template[i+1] != '0' {
+			for ; end > i+1; end-- {
+				idx, err := strconv.Atoi(template[i+1 : end])
+				if err == nil && idx >= 1 && idx <= len(groups) {
+					b.WriteString(groups[idx-1])
+					i = end
+					replaced = true
+					break
+				}
+			}
+		}
+		if !replaced {
+			b.WriteByte('$')
+			i++
 		}
 	}
-	return result
+	return b.String()
 }
 
 func findRoute(
